@@ -23,6 +23,12 @@ to the input; the evaluation point and the vector operands are left untouched.  
 that hands an operand aliased buffers although the caller did not is visible; the expression
 classes are also built directly with the documented user temporaries (tmp, tmp_ran, tmp_dom).
 
+Products B * F, B @ F, F * B of an operator B defined on the field with a functional F, both
+of size <= 1 (so that type(F) can be a proper subclass of type(B) and Python tries the
+reflected F.__rmul__(B) first), form a family of states of their own; every state also probes
+the boundary exponents of ``A ** n`` (n = 0: refusal or identity; negative / non-integer:
+refusal).
+
 History clause (an expression is a value whose action is fixed when it is built): for every
 form that takes an element operand and copies it on the pinned tree (see `private_claimed`),
 the driver-owned element is overwritten in place after the first evaluation (``v *= 2``; v used
@@ -485,6 +491,61 @@ def history(e, op, env, rec):
     return viol, evals, False
 
 
+POW_BOUNDARY = [(0, 'zero'), (-1, 'negative'), (-2, 'negative'), (0.5, 'noninteger'),
+                (1.5, 'noninteger')]
+
+
+def pow_boundary(child, cop, env):
+    """Boundary exponents of ``A ** n`` ("n : positive int"; n = 1, 2, 3 are ordinary roots).
+    n = 0: either a clean refusal (TypeError / ValueError) or an operator acting as the identity
+    on A.domain; negative and non-integer n: refusal.  Returns (violations, evals)."""
+    t = A.typeof(child)
+    dom = t[0]
+    site = 'A**n[boundary exponent]'        # the guard lives in Operator.__pow__ alone
+    viol = []
+    evals = 0
+    for n, cls in POW_BOUNDARY:
+        evals += 1
+        head = 'expr = %s ** %r; ' % (A.src(child), n)
+        try:
+            r = cop ** n
+        except (TypeError, ValueError):
+            continue
+        except Exception as exc:
+            viol.append((site, 'pow_boundary:%s_raises:%s' % (cls, type(exc).__name__),
+                         head + 'raised %s: %s' % (type(exc).__name__, str(exc)[:200])))
+            continue
+        if cls != 'zero':
+            viol.append((site, 'pow_boundary:%s_not_refused' % cls,
+                         head + 'documented "n : positive int", returned %r' % (r,)))
+            continue
+        bad = None
+        if not isinstance(r, odl.Operator) or r.domain != cop.domain or r.range != cop.domain:
+            bad = 'returned %r, neither a refusal nor an operator A.domain -> A.domain' % (r,)
+        else:
+            for p in A.points(dom):
+                evals += 1
+                try:
+                    got = _flat(r(env.point(dom, p)), dom)
+                    ok = np.array_equal(got, np.asarray(p))
+                    if ok and dom not in A.FIELDS:
+                        out = r.range.element()
+                        r(env.point(dom, p), out=out)
+                        got = _flat(out, dom)
+                        ok = np.array_equal(got, np.asarray(p))
+                except Exception as exc:
+                    bad = 'x = %s; (A ** 0)(x) raised %s: %s' % (_show(p), type(exc).__name__,
+                                                               str(exc)[:200])
+                    break
+                if not ok:
+                    bad = ('x = %s; (A ** 0)(x) = %s, expected x (identity) or a refusal of '
+                           'A ** 0' % (_show(p), _show(got)))
+                    break
+        if bad:
+            viol.append((site, 'pow_boundary:zero_not_identity', head + bad))
+    return viol, evals
+
+
 def _confirm_by_source(e, env, viol):
     """The printed source must reproduce what was judged (guards the repro text)."""
     try:
@@ -512,6 +573,9 @@ def _children(tier):
         out.append((c, 'full', 'roots'))
     for c in A.level(full, 1):
         out.append((c, 'full', 'roots'))
+    # products (operator defined on the field) * (functional): both operands of size <= 1
+    for b in A.product_sides()[0]:
+        out.append((b, 'prod', 'prodpairs'))
     if tier == 'thorough':
         red = A.REDUCED
         s1 = A.level(red, 1)
@@ -542,6 +606,9 @@ def run(cfg):
     if cfg['mode'] == 'pairs':
         partners = A.level(pool, 1)
         exprs = A.pairs_with(child, partners, pool)
+    elif cfg['mode'] == 'prodpairs':
+        partners = A.product_sides(pool)[1]
+        exprs = A.products_with(child, partners)
     else:
         partners = []
         exprs = A.roots_over(child, pool)
@@ -559,10 +626,17 @@ def run(cfg):
         return res
     pre = {id(child): cop}
     evals = cevals if is_leaf else 0
+    bviol = []
+    if cfg['mode'] == 'roots':
+        bviol, be = pow_boundary(child, cop, env)
+        evals += be
     nexpr = 1 if is_leaf else 0
     skipped = 0
     sigs = set()
     first = {}
+    for bsite, bsym, bdet in bviol:
+        first.setdefault((bsite, bsym), bdet)
+        sigs.add('%s|%s' % (bsite, bsym))
     partner_ok = {}
     byref = set()
     kept = []           # (expression, object, site, first value at x1) of the sound roots
@@ -662,8 +736,11 @@ def summarize(results):
     n = sum(r.get('nexpr', 0) for _, r in results)
     by = {}
     for c, r in results:
-        k = 'size%d/%s/%s' % (A.size(c['child']) + (2 if c['mode'] == 'pairs' else 1),
-                              c['pool'], c['mode'])
+        if c['mode'] == 'prodpairs':
+            k = 'products(size<=1 x size<=1)'
+        else:
+            k = 'size%d/%s/%s' % (A.size(c['child']) + (2 if c['mode'] == 'pairs' else 1),
+                                  c['pool'], c['mode'])
         by[k] = by.get(k, 0) + r.get('nexpr', 0)
     ex = sum(r.get('cmp', [0, 0])[0] for _, r in results)
     tol = sum(r.get('cmp', [0, 0])[1] for _, r in results)
@@ -706,6 +783,9 @@ def meta(tier):
                            'A-v; and once more, at x1, for every expression built on a child '
                            'whose inner element operands are overwritten',
          'operand kept by reference on the pinned tree (not judged)': BYREF_ON_PINNED_TREE,
+         'products': 'B * F, B @ F, F * B for all size <= 1 expressions B defined on the field '
+                     'and F with values in it over %s' % (A.PRODUCT['leaves'],),
+         'power boundary': 'A ** n for n in %s for every child' % ([n for n, _ in POW_BOUNDARY],),
          'tmp forms (over leaf pairs)': ['OperatorComp(A,B,tmp)',
                                          'OperatorSum(A,B,tmp_ran,tmp_dom)',
                                          'OperatorRightScalarMult(A,a,tmp)']}
